@@ -632,6 +632,7 @@ def run_frozen(case):
             ('copy.deepcopy', lambda: copy.deepcopy(fd), snapshot),
             ('pickle2', lambda: pickle.loads(pickle.dumps(fd, 2)), snapshot),
             ('pickle5', lambda: pickle.loads(pickle.dumps(fd, 5)), snapshot)]
+    sames = []
     has_token = any(isinstance(v, Token) for v in snapshot.values())
     if has_token:
         out.label('identity_hashed_values')
@@ -664,6 +665,14 @@ def run_frozen(case):
         r2 = _call(r[1].__setitem__, 'q', 1)
         if r2[0] != 'exc' or r2[1] != 'TypeError':
             return out.fail('c17.frozen.mutator-setitem', '%s result is mutable: %r' % (name, r2))
+        if exp == snapshot:
+            sames.append((name, r[1]))
+    # equality once more, now that hash() has been attempted (successfully or not) on every instance involved
+    for name, x in [('the same items in another order', fd2)] + sames:
+        _call(hash, x)
+        _call(hash, fd)
+        if not (x == fd) or (x != fd) or not (fd == x):
+            return out.fail('c17.frozen.eq-after-hash', '%s: equal to the original before hash() was tried on both, unequal afterwards (%r vs %r)' % (name, x, fd))
     return out
 
 
